@@ -11,7 +11,7 @@ ID = "C12"
 MOD = "mc.props.c12"
 
 METHODS = [["lsq_poly", 3]] + [["lsq_poly", o] for o in (1, 2, 4, 5)] + [["spline", o] for o in (2, 3, 4, 5)] + \
-          [[m, o] for m in ("lagrange", "krogh", "pchip", "akima", "hermite") for o in (2, 3, 6)]
+          [[m, o] for m in ("lagrange", "krogh", "pchip", "akima", "hermite") for o in (2, 3, 4, 5, 6, 7)]
 TGRIDS = {"T0-300": dict(T_MIN=0, DT=300, DT_SAMPLE=300, NT=3), "T0-0.5": dict(T_MIN=0, DT=0.5, DT_SAMPLE=0.5, NT=4),
           "T0-2": dict(T_MIN=0, DT=2, DT_SAMPLE=2, NT=4), "T1-50": dict(T_MIN=1, DT=50, DT_SAMPLE=50, NT=3),
           "T0-500": dict(T_MIN=0, DT=500, DT_SAMPLE=500, NT=6)}
@@ -23,17 +23,22 @@ DIMS = OrderedDict([
     ("wset", ["mid", "edge", "low"]),
     ("shape", [[2, 1], [3, 2], [1, 2]]),
     ("lattice", ["power", "none"]),
+    ("nv", [8, 6, 12]),                       # orders are admissible only below the number of sampled volumes (canon drops the rest)
+    ("weights", ["increasing", "equal", "int", "scaled"]),
+    ("qorder", [3, 4, 5]),                    # order of the QHA layer's own finite-strain fit
+    ("pgrid", ["p2", "pfrac"]),
 ])
+PGRIDS = {"p2": dict(NTV=31, DELTA_P=2.0, DELTA_P_SAMPLE=2.0), "pfrac": dict(NTV=27, DELTA_P=0.75, DELTA_P_SAMPLE=2.25, P_MIN=-1.5)}
 AVG = ["bulk_modulus_voigt", "bulk_modulus_reuss", "bulk_modulus_voigt_reuss_hill", "shear_modulus_voigt",
        "shear_modulus_reuss", "shear_modulus_voigt_reuss_hill", "primary_velocities", "secondary_velocities"]
 
 
 def run_case(case):
     method, order = case["method"]
-    spec = dict(nv=8 if "nv" not in case else case["nv"], nq=case["shape"][0], na=case["shape"][1], lattice=case["lattice"],
-                system=case["system"], compset=case["compset"], static="generic", weights="increasing", wset=case["wset"],
+    spec = dict(nv=case.get("nv", 8), nq=case["shape"][0], na=case["shape"][1], lattice=case["lattice"],
+                system=case["system"], compset=case["compset"], static="generic", weights=case.get("weights", "increasing"), wset=case["wset"],
                 interpolator=method, order=order)
-    spec["qha"] = dict(TGRIDS[case["tgrid"]], NTV=31, DELTA_P=2.0, DELTA_P_SAMPLE=2.0)
+    spec["qha"] = dict(TGRIDS[case["tgrid"]], **PGRIDS[case.get("pgrid", "p2")], order=case.get("qorder", 3))
     synth.VOLUME_SETS.setdefault(8, [320.0, 308.0, 296.0, 284.0, 272.0, 260.0, 248.0, 236.0])
     viol = []
     with K.scratch() as d:
@@ -103,13 +108,15 @@ def run_case(case):
 
 def canon(c):
     c = dict(c)
+    if c["method"][1] >= c.get("nv", 8):
+        return None        # not an admissible order for this number of volumes
     if c["system"] in (None, "triclinic") and c["compset"] == "nonzero":
         c["compset"] = "full21"
     return c
 
 
 def explore(ctx):
-    ctx.rule = ("mode A: deviation lattice over 24 (method, admissible order) pairs x 10 system settings x 5 temperature grids (T_MIN>=0, "
+    ctx.rule = ("mode A: deviation lattice over 39 (method, order) pairs (orders up to n_V-1) x 3 volume counts x 4 weight kinds x QHA fit orders 3-5 x 2 pressure grids x 10 system settings x 5 temperature grids (T_MIN>=0, "
                 "DT 0.5..500 K) x 3 component sets x 3 spectra (incl. 1500 cm-1 modes and 30-60 cm-1 modes) x 3 shapes x lattice block; "
                 "every configuration is schema-validated and run through the real Calculator; quick <=2 deviations, thorough full "
                 "product of method x system x tgrid x compset x wset plus <=2 deviations of the rest; non-trivial = all")
@@ -121,6 +128,8 @@ def explore(ctx):
     def add(cfg, k):
         nonlocal edges
         c = canon(dict(cfg))
+        if c is None:
+            return
         key = case_key(c)
         edges += max(k, 1)
         if key not in seen:
